@@ -41,6 +41,8 @@ type sleepCase struct {
 	CancelAt  int64 `json:"cancelat"`
 }
 
+// sleepPre is the time, in ms, between arming the cancellation and calling time:sleep in the last runSleep of this goroutine's
+// case (returned through the message of the record: "pre=<ms>")
 func runSleep(c sleepCase) (string, int64, string) {
 	env := lisp.NewEnv(nil)
 	env.Runtime.Reader = parser.NewReader()
@@ -61,6 +63,7 @@ func runSleep(c sleepCase) (string, int64, string) {
 		env.PutGlobal(lisp.Symbol("tx-max"), lisp.Native(time.Duration(c.Max)*time.Millisecond))
 		src = "(time:sleep tx-d :max tx-max)"
 	}
+	armed := time.Now()
 	ctx := context.Background()
 	var cancel context.CancelFunc = func() {}
 	needCtx := c.Deadline > 0 || c.Cancelled || c.CancelAt > 0
@@ -92,13 +95,14 @@ func runSleep(c sleepCase) (string, int64, string) {
 		res = env.LoadString("tx", src)
 	}
 	el := time.Since(start).Milliseconds()
+	pre := fmt.Sprintf("pre=%d ", start.Sub(armed).Milliseconds())
 	if res.Type == lisp.LError {
-		return res.Str, el, safeStr(res)
+		return res.Str, el, pre + safeStr(res)
 	}
 	if res.IsNil() {
-		return "nil", el, ""
+		return "nil", el, pre
 	}
-	return "value", el, safeStr(res)
+	return "value", el, pre + safeStr(res)
 }
 
 func init() {
